@@ -6,6 +6,7 @@ PROP = {
     "level_note": "Trusts the checker in harness/mon/src/shared/chan.rs and vcommon::stamp(). Scenarios that drop the receiver early are excluded from the oracle (the statement says 'while the receiver is alive'). Blocking / async flushes that time out make no claim and are not judged.",
     "technique": "runtime monitoring: flush-vs-attempts rule over call/return stamps of seeded channel scenarios with hook-aimed flush requests; Miri and ThreadSanitizer lanes run the same monitor",
     "assumptions": [
+        "quiescence step: a callback flush requested right after the last sender operation (nothing else touching the channel, no processor call failing) must have completed by the time the receiver has begun 3 further idle waits (counted at the RecvBeforeIdleWait scheduling point); a watchdog expiry is inconclusive",
         "an item counts as 'sent before the flush' only if its send returned (return stamp) before the flush was requested (stamp taken before the call)",
         "an item that never reaches the processor counts as discarded only if the harness's Channel implementation saw it removed by clear() (= overflow truncation) before the flush completed",
         "scenarios that drop the receiver early are excluded",
